@@ -78,6 +78,8 @@ def check(run):
     thorough = run.tier == "thorough"
     rng = random.Random(run.seed)
     run.model_check("MC_SubIndex", "MC_SubIndex.cfg")
+    run.model_check("MC_Trie", "MC_Trie_subs.cfg")
+    run.negative_control("MC_Trie", "MC_Trie_subs_neg.cfg", "WalkIsMatches")
     topics, filters = domain(run, ["a", "b", ""], 4 if thorough else 3)
     topics2, filters2 = domain(run, ["a", ""], 2)
     run.log("domain: %d topics x %d filters" % (len(topics), len(filters)))
